@@ -83,6 +83,15 @@ Theorem C19_checker_accepts_model_runs : forall recs ps code v,
 Proof. exact chk_sound_set. Qed.
 Print Assumptions C19_checker_accepts_model_runs.
 
+(* whichever path wrote them / only permission holders or passed proposals: the regenerated
+   list of every function touching the store key or calling a setter equals the pinned one, and
+   the message handler checks the change permission before writing *)
+Theorem C19_write_paths :
+  store_key_users = pinned_store_key_users /\ setter_callers = pinned_setter_callers /\
+  msg_gate_ok = true /\ msg_gate_perm = pinned_gate_perm.
+Proof. exact write_paths_ok. Qed.
+Print Assumptions C19_write_paths.
+
 (* non-vacuity: a concrete valid record, a settable identifier, an accepted write *)
 Example C19_nonvacuous :
   exists ps ps', validate ps = true /\ set [] ps P_MaxTxFee (2000000, ""%string) = Some ps'
